@@ -51,7 +51,8 @@ def NotFinalized : Nat := 0
 def Finalizing : Nat := 1
 def Finalized : Nat := 2
 
-structure R where
+/-- the data fields of `Round` (everything but `r.mutex`) -/
+structure D where
   number : Int := 0
   /-- `viper.GetInt("server_chain.round_timeouts.timeout_cap")` -/
   cap : Int := 0
@@ -69,12 +70,17 @@ structure R where
   permLen : Option Nat := none
   vrfOut : Nat := 0
   soft : Nat := 0
-  mutexHeld : Bool := false
-  readers : Nat := 0
   tcount : Int := 0
   votes : List (Nat × Int) := []
   perm : List Nat := []
   prrs : Int := 0
+deriving Repr
+
+/-- a round: its data and the state of `r.mutex` (write lock held / number of read locks held) -/
+structure R where
+  d : D := {}
+  mutexHeld : Bool := false
+  readers : Nat := 0
 deriving Repr
 
 structure Cfg where
@@ -124,20 +130,20 @@ def rlock : M Unit := fun s =>
 /-- `r.mutex.RUnlock()` -/
 def runlock : M Unit := fun s => .ret () { s with readers := s.readers - 1 }
 /-- one atomic body step -/
-def act {α} (f : R → α × R) : M α := fun s => .ret (f s).1 (f s).2
+def act {α} (f : D → α × D) : M α := fun s => .ret (f s.d).1 { s with d := (f s.d).2 }
 
 /-- `r.mutex.Lock(); defer r.mutex.Unlock(); body` (also the `Lock(); body; Unlock()` methods without an
 early return) -/
-def locked {α} (f : R → α × R) : M α :=
+def locked {α} (f : D → α × D) : M α :=
   M.bind lock fun _ => M.bind (act f) fun a => M.bind unlock fun _ => M.pure a
 /-- `r.mutex.RLock(); defer r.mutex.RUnlock(); body` -/
-def rlocked {α} (f : R → α × R) : M α :=
+def rlocked {α} (f : D → α × D) : M α :=
   M.bind rlock fun _ => M.bind (act f) fun a => M.bind runlock fun _ => M.pure a
 
 /-! ### bodies -/
 
 /-- `setPhase`: `if state > r.getState() { store }` -/
-def setPhaseF (p : Int) (s : R) : R := if p > s.phase then { s with phase := p } else s
+def setPhaseF (p : Int) (s : D) : D := if p > s.phase then { s with phase := p } else s
 
 def wrap64 (x : Int) : Int := (x + 9223372036854775808) % 18446744073709551616 - 9223372036854775808
 
@@ -149,7 +155,7 @@ def insRank (x : Blk) : List Blk → List Blk
 def sortRank (l : List Blk) : List Blk := l.foldr insRank []
 
 /-- `addProposedBlock` -/
-def addProposedF (b : Blk) (s : R) : R :=
+def addProposedF (b : Blk) (s : D) : D :=
   if s.proposed.any (fun x => x.hash == b.hash) then
     -- the FIRST entry with that hash is overwritten, then `return`
     { s with proposed := replaceFirst s.proposed }
@@ -167,7 +173,7 @@ def lastSameRank (rank : Int) : List Blk → Option Nat
     | none => if x.rank = rank then some 0 else none
 
 /-- `AddNotarizedBlock` body -/
-def addNotarizedF (b : Blk) (s : R) : R :=
+def addNotarizedF (b : Blk) (s : D) : D :=
   let s := addProposedF b s
   if s.notarized.any (fun x => x.hash == b.hash) then s   -- merge tickets; return
   else
@@ -182,18 +188,18 @@ def addNotarizedF (b : Blk) (s : R) : R :=
 
 /-- `UpdateNotarizedBlock` body: proposed entries with that hash are replaced; the notarized loop assigns
 the old entry back to itself (entity.go:356) and changes nothing -/
-def updateNotarizedF (b : Blk) (s : R) : R :=
+def updateNotarizedF (b : Blk) (s : D) : D :=
   { s with proposed := s.proposed.map fun x => if x.hash == b.hash then b else x }
 
 /-- `initialize()` + the rest of the accepted branch of `Restart` -/
-def restartBodyF (s : R) : R :=
+def restartBodyF (s : D) : D :=
   { s with notarized := [], proposed := [], shares := [], seed := 0, block := none, soft := 0, phase := ShareVRF }
 
-def isFinalizedF (s : R) : Bool := s.fin == Finalized || s.number == 0
-def isFinalizingF (s : R) : Bool := s.fin == Finalizing
+def isFinalizedF (s : D) : Bool := s.fin == Finalized || s.number == 0
+def isFinalizingF (s : D) : Bool := s.fin == Finalizing
 
 /-- `AddVRFShare` body -/
-def addVRFShareF (k : Nat) (threshold : Int) (s : R) : Ans × R :=
+def addVRFShareF (k : Nat) (threshold : Int) (s : D) : Ans × D :=
   if threshold ≤ (s.shares.length : Int) then (.bool false, s)
   else if s.shares.contains k then (.bool false, s)
   else (.bool true, { setPhaseF ShareVRF s with shares := s.shares ++ [k] })
@@ -217,7 +223,7 @@ def scanVotes (self : Nat) (votes : List (Nat × Int)) (count : Int) : List Nat 
 def checkCapF (cap : Int) (c : Int) : Int := if cap > 0 ∧ c > cap then cap else c
 
 /-- `IncrementTimeoutCount(prrs, miners)`; `ranked` = what `rankTimeoutCounters(prrs, miners)` computes -/
-def incTimeoutF (prrs : Int) (ranked : List Nat) (s : R) : R :=
+def incTimeoutF (prrs : Int) (ranked : List Nat) (s : D) : D :=
   if prrs = 0 then s
   else
     let s := if s.perm.isEmpty then { s with perm := ranked, prrs := prrs } else s
@@ -226,7 +232,7 @@ def incTimeoutF (prrs : Int) (ranked : List Nat) (s : R) : R :=
     { s with votes := [], tcount := checkCapF s.cap c }
 
 /-- `SetTimeoutCount` -/
-def setTimeoutF (n : Int) (s : R) : Ans × R :=
+def setTimeoutF (n : Int) (s : D) : Ans × D :=
   if n ≤ s.tcount then (.bool false, s) else (.bool true, { s with tcount := n })
 
 /-! ### operations -/
@@ -245,68 +251,110 @@ inductive Op where
   | incSoft | getSoft
 deriving Repr
 
-/-- `Restart` (entity.go:646), step by step as written. -/
+/-- which lock a method holds around its body: `Lock(); defer Unlock()` (or `Lock(); …; Unlock()` without an
+early return), `RLock(); defer RUnlock()`, or none (atomics / the timeout counter's own mutex) -/
+inductive LK where
+  | none | write | read
+deriving DecidableEq, Repr
+
+def Op.lk : Op → LK
+  | .getPhase | .setPhase _ | .resetPhase _ => .none            -- exported SetPhase/ResetPhase/GetPhase: NO lock
+  | .addShare _ _ | .shareExist _ => .write
+  | .getShares => .read
+  | .addNotarized _ | .addProposed _ | .updateNotarized _ => .write
+  | .getNotarized => .none                                      -- GetNotarizedBlocks: no lock
+  | .getProposed | .heaviest | .bestNotarized | .bestProposed => .read
+  | .restart => .write
+  | .finalize _ | .setFinalizing | .setFinalized | .resetFinIfNot | .resetFin => .write
+  | .isFinalizing | .isFinalized | .finState => .read
+  | .getBlockHash => .write
+  | .setTimeout _ | .getTimeout | .incTimeout _ _ | .addVote _ _ => .none
+  | .setSeed _ _ | .setSeedNB _ _ => .write
+  | .getSeed | .hasSeed => .none
+  | .ranksComputed => .read
+  | .setVRFOut _ => .write
+  | .getVRFOut => .read
+  | .incSoft | .getSoft => .none
+
+/-- the body of each method: its answer and its effect on the data -/
+def Op.body : Op → D → Ans × D
+  | .getPhase, s => (.int s.phase, s)
+  | .setPhase p, s => (.unit, setPhaseF p s)
+  | .resetPhase p, s => (.unit, { s with phase := p })
+  | .addShare k t, s => addVRFShareF k t s
+  | .shareExist k, s => (.bool (s.shares.contains k), s)
+  | .getShares, s => (.keys s.shares, s)
+  | .addNotarized b, s => (.unit, addNotarizedF b s)
+  | .addProposed b, s => (.unit, addProposedF b s)
+  | .updateNotarized b, s => (.unit, updateNotarizedF b s)
+  | .getNotarized, s => (.blks s.notarized, s)
+  | .getProposed, s => (.blks s.proposed, s)
+  | .heaviest, s => (.blk s.notarized.head?, s)
+  | .bestNotarized, s =>
+      if s.notarized.length ≤ 1 then (.blk s.notarized.head?, s)
+      else (.blk (sortRank s.notarized).head?, { s with notarized := sortRank s.notarized })  -- sorts in place
+  | .bestProposed, s =>
+      if s.proposed.length ≤ 1 then (.blk s.proposed.head?, s)
+      else (.blk (sortRank s.proposed).head?, { s with proposed := sortRank s.proposed })
+  | .restart, s =>
+      if s.phase ≥ Share then (.errComplete, s)   -- `return CompleteRoundRestartError`
+      else (.unit, restartBodyF s)
+  | .finalize b, s => (.unit, { s with fin := Finalized, block := some b, blockHash := some b.hash })
+  | .setFinalizing, s =>
+      if isFinalizedF s || isFinalizingF s then (.bool false, s) else (.bool true, { s with fin := Finalizing })
+  | .setFinalized, s => (.unit, { s with fin := Finalized })
+  | .resetFinIfNot, s => if isFinalizedF s then (.unit, s) else (.unit, { s with fin := NotFinalized })
+  | .resetFin, s => (.unit, { s with fin := NotFinalized })
+  | .isFinalizing, s => (.bool (isFinalizingF s), s)
+  | .isFinalized, s => (.bool (isFinalizedF s), s)
+  | .finState, s => (.int (s.fin : Int), s)
+  | .getBlockHash, s => (.hash s.blockHash, s)
+  | .setTimeout n, s => setTimeoutF n s
+  | .getTimeout, s => (.int s.tcount, s)
+  | .incTimeout prrs ranked, s => (.unit, incTimeoutF prrs ranked s)
+  | .addVote n id, s => (.unit, { s with votes := setVote s.votes id n })
+  | .setSeed seed n, s => if s.seed ≠ 0 then (.unit, s) else (.unit, { s with permLen := some n, seed := seed })
+  | .setSeedNB seed n, s => (.unit, { s with permLen := some n, seed := seed })
+  | .getSeed, s => (.int s.seed, s)
+  | .hasSeed, s => (.bool (s.seed != 0), s)
+  | .ranksComputed, s => (.bool s.permLen.isSome, s)
+  | .setVRFOut x, s => (.unit, { s with vrfOut := x })
+  | .getVRFOut, s => (.int (s.vrfOut : Int), s)
+  | .incSoft, s => (.unit, { s with soft := s.soft + 1 })
+  | .getSoft, s => (.int (s.soft : Int), s)
+
+/-- `Restart` (entity.go:646), step by step as written:
+`Lock(); if getState() >= Share { return err }; initialize(); …; ResetPhase(ShareVRF); Unlock(); return nil`. -/
 def restart (cfg : Cfg) : M Ans :=
   M.bind lock fun _ => fun s =>
-    if s.phase ≥ Share then
+    if s.d.phase ≥ Share then
       -- `return CompleteRoundRestartError` — no Unlock on this path in the code
       (if cfg.restartUnlocksOnReject then M.bind unlock (fun _ => M.pure Ans.errComplete) else M.pure Ans.errComplete) s
     else
-      (M.bind (act fun s => ((), restartBodyF s)) fun _ => M.bind unlock fun _ => M.pure Ans.unit) s
+      (M.bind (act fun d => ((), restartBodyF d)) fun _ => M.bind unlock fun _ => M.pure Ans.unit) s
 
-/-- `SetRandomSeed`: `if r.HasRandomSeed() { return }` (atomic load, no lock) then Lock/Unlock, then the atomic store -/
+/-- `SetRandomSeed`: `if r.HasRandomSeed() { return }` (atomic load, no lock); `Lock(); minerPerm = …; Unlock()`;
+then the atomic store of the seed -/
 def setSeed (seed : Int) (n : Nat) : M Ans := fun s =>
-  if s.seed ≠ 0 then .ret .unit s
-  else (M.bind lock fun _ => M.bind (act fun s => ((), { s with permLen := some n })) fun _ =>
-        M.bind unlock fun _ => act fun s => (Ans.unit, { s with seed := seed })) s
+  if s.d.seed ≠ 0 then .ret .unit s
+  else (M.bind lock fun _ => M.bind (act fun d => ((), { d with permLen := some n })) fun _ =>
+        M.bind unlock fun _ => act fun d => (Ans.unit, { d with seed := seed })) s
 
+/-- `SetRandomSeedForNotarizedBlock` -/
 def setSeedNB (seed : Int) (n : Nat) : M Ans :=
-  M.bind lock fun _ => M.bind (act fun s => ((), { s with permLen := some n })) fun _ =>
-    M.bind unlock fun _ => act fun s => (Ans.unit, { s with seed := seed })
+  M.bind lock fun _ => M.bind (act fun d => ((), { d with permLen := some n })) fun _ =>
+    M.bind unlock fun _ => act fun d => (Ans.unit, { d with seed := seed })
 
-def opM (cfg : Cfg) : Op → M Ans
-  | .getPhase => act fun s => (.int s.phase, s)
-  | .setPhase p => act fun s => (.unit, setPhaseF p s)            -- exported SetPhase: NO lock
-  | .resetPhase p => act fun s => (.unit, { s with phase := p })  -- atomic store, no lock
-  | .addShare k t => locked (addVRFShareF k t)
-  | .shareExist k => locked fun s => (.bool (s.shares.contains k), s)
-  | .getShares => rlocked fun s => (.keys s.shares, s)
-  | .addNotarized b => locked fun s => (.unit, addNotarizedF b s)
-  | .addProposed b => locked fun s => (.unit, addProposedF b s)
-  | .updateNotarized b => locked fun s => (.unit, updateNotarizedF b s)
-  | .getNotarized => act fun s => (.blks s.notarized, s)          -- GetNotarizedBlocks: no lock
-  | .getProposed => rlocked fun s => (.blks s.proposed, s)
-  | .heaviest => rlocked fun s => (.blk s.notarized.head?, s)
-  | .bestNotarized => rlocked fun s =>
-      if s.notarized.length ≤ 1 then (.blk s.notarized.head?, s)
-      else (.blk (sortRank s.notarized).head?, { s with notarized := sortRank s.notarized })  -- sorts in place
-  | .bestProposed => rlocked fun s =>
-      if s.proposed.length ≤ 1 then (.blk s.proposed.head?, s)
-      else (.blk (sortRank s.proposed).head?, { s with proposed := sortRank s.proposed })
+/-- every method as its sequence of atomic steps -/
+def opM (cfg : Cfg) (op : Op) : M Ans :=
+  match op with
   | .restart => restart cfg
-  | .finalize b => locked fun s => (.unit, { s with fin := Finalized, block := some b, blockHash := some b.hash })
-  | .setFinalizing => locked fun s =>
-      if isFinalizedF s || isFinalizingF s then (.bool false, s) else (.bool true, { s with fin := Finalizing })
-  | .setFinalized => locked fun s => (.unit, { s with fin := Finalized })
-  | .resetFinIfNot => locked fun s => if isFinalizedF s then (.unit, s) else (.unit, { s with fin := NotFinalized })
-  | .resetFin => locked fun s => (.unit, { s with fin := NotFinalized })
-  | .isFinalizing => rlocked fun s => (.bool (isFinalizingF s), s)
-  | .isFinalized => rlocked fun s => (.bool (isFinalizedF s), s)
-  | .finState => rlocked fun s => (.int (s.fin : Int), s)
-  | .getBlockHash => locked fun s => (.hash s.blockHash, s)
-  | .setTimeout n => act (setTimeoutF n)
-  | .getTimeout => act fun s => (.int s.tcount, s)
-  | .incTimeout prrs ranked => act fun s => (.unit, incTimeoutF prrs ranked s)
-  | .addVote n id => act fun s => (.unit, { s with votes := setVote s.votes id n })
   | .setSeed seed n => setSeed seed n
   | .setSeedNB seed n => setSeedNB seed n
-  | .getSeed => act fun s => (.int s.seed, s)
-  | .hasSeed => act fun s => (.bool (s.seed != 0), s)
-  | .ranksComputed => rlocked fun s => (.bool s.permLen.isSome, s)
-  | .setVRFOut x => locked fun s => (.unit, { s with vrfOut := x })
-  | .getVRFOut => rlocked fun s => (.int (s.vrfOut : Int), s)
-  | .incSoft => act fun s => (.unit, { s with soft := s.soft + 1 })
-  | .getSoft => act fun s => (.int (s.soft : Int), s)
+  | op => match op.lk with
+    | .none => act op.body
+    | .write => locked op.body
+    | .read => rlocked op.body
 
 /-- outcome of calling an operation from a goroutine that nobody helps: it returns an answer, or it blocks
 for ever (`none`). -/
@@ -317,7 +365,7 @@ def step (cfg : Cfg) (s : R) (op : Op) : R × Option Ans :=
 
 def run (cfg : Cfg) (s : R) (ops : List Op) : R := ops.foldl (fun s op => (step cfg s op).1) s
 
-def newRound (number cap : Int) (self : Nat) : R := { number := number, cap := cap, self := self }
+def newRound (number cap : Int) (self : Nat) : R := { d := { number := number, cap := cap, self := self } }
 
 /-! ## Concurrent model of the phase cell
 
